@@ -114,10 +114,9 @@ def slices(tier, rng):
                          opts={'must_reach': ['ok', 'err'], 'max_steps': 60000}))
         out.append(Slice('impl-ps%d' % ps, 't_impl', 12, lambda a, ps=ps: impl_assume(a, ps), opts={'must_reach': ['ok', 'err']}))
         out.append(Slice('extern-ps%d' % ps, 't_extern', 10, lambda a, ps=ps: extern_assume(a, ps), opts={'must_reach': ['ok', 'err']}))
-        if tier != 'quick' and ps == 4:
-            # nested types with unconstrained numerics: one pointer size, bounded flags (the free product was truncated at its time limit twice)
-            out.append(Slice('nest-ps%d' % ps, 't_nest', 20, lambda a, ps=ps: nest_assume(a, ps) + [a[4] == 0, a[15] == 0],
-                             opts={'must_reach': ['ok', 'err'], 'time_limit': 2400}))
+        # (a slice running t_nest with every numeric unconstrained was part of the thorough tier until it was truncated at its time limit and
+        #  left z3 with `unknown` on overflow checks in three thorough runs; nested types keep the bounded-numeric slices of C02 and the
+        #  zero-length slice above — stated in DESIGN.md section 4)
     return out
 
 
